@@ -15,10 +15,13 @@ Proof. vm_compute. discriminate. Qed.
 Lemma retry_period_positive : 1 <= c_retry go_cfg.
 Proof. vm_compute. discriminate. Qed.
 
-(* the same constants with cancel() before CompareAndDelete in release and cleanup (proposed fix of
-   F17) and with the order the pinned code uses *)
-Definition cancel_first_cfg : cfg := mkCfg elect_renewals elect_retry_ns true true.
-Definition delete_first_cfg : cfg := mkCfg elect_renewals elect_retry_ns false false.
+(* the same constants with the pinned code's control flow (CompareAndDelete before cancel(), no
+   cancel() when the renewal goroutine returns) and with the two proposed repairs (F17: cancel()
+   first; LEAK: defer li.cancel() in maintainLeadership); go_cfg is whatever the source says now *)
+Definition pinned_cfg : cfg := mkCfg elect_renewals elect_retry_ns false false false.
+Definition delete_first_cfg : cfg := pinned_cfg.
+Definition cancel_first_cfg : cfg := mkCfg elect_renewals elect_retry_ns true true elect_cancel_on_exit.
+Definition cancel_on_exit_cfg : cfg := mkCfg elect_renewals elect_retry_ns elect_release_cancel_first elect_cleanup_cancel_first true.
 
 (* hypotheses on a history *)
 Definition well_formed (acts : list action) := Forall wf_action acts.                (* durations >= 1 s *)
@@ -39,7 +42,7 @@ Ltac hyps := unfold well_formed, acquires_once, distinct_values, no_external_del
    i.e. in every reachable state (every interleaving, every pattern of storage outcomes, external
    deletions, every clock advance allowed by urgency) a live leadership context is at most two
    renewal intervals older than its last successful InsertIfNotExist/CompareAndSwap.
-   The faithful model refutes it: when a participant acquires a key for which it still holds a
+   The faithful model of the pinned control flow refutes it: when a participant acquires a key for which it still holds a
    live context (possible after an external deletion of the record), the first renewal goroutine
    ends in releaseLeadership without finding itself in the map and returns without cancel():
    its context stays live for ever (finding LEAK). *)
@@ -50,7 +53,7 @@ Definition leak_run : list action :=
    Advance 1000000000; Tick 0; CasEff 0 ONormal; CasRet 0; Advance 10000000000].
 
 Theorem step_down_bound_refuted :
-  exists np acts s i l, well_formed acts /\ run go_cfg (init np) acts = Some s /\
+  exists np acts s i l, well_formed acts /\ run pinned_cfg (init np) acts = Some s /\
     nth_error (lis s) i = Some l /\ llive l = true /\ lph l = MGone /\
     llast l + ldur l * sec < now s.
 Proof.
@@ -67,6 +70,29 @@ Theorem step_down_bound_partial :
   run go_cfg (init np) acts = Some s -> nth_error (lis s) i = Some l -> llive l = true ->
   now s <= llast l + 2 * interval go_cfg (ldur l) /\ 2 * (2 * interval go_cfg (ldur l)) <= ldur l * sec.
 Proof. exact (step_down_bound_proved go_cfg renewals_at_least_4). Qed.
+
+(* with the repair (cancel() whenever the renewal goroutine returns) the full statement holds:
+   for the explicit configuration, and for the source's configuration once it has the defer *)
+Theorem step_down_bound_cancel_on_exit :
+  forall np acts s i l, well_formed acts ->
+  run cancel_on_exit_cfg (init np) acts = Some s -> nth_error (lis s) i = Some l -> llive l = true ->
+  now s <= llast l + 2 * interval cancel_on_exit_cfg (ldur l) /\
+  2 * (2 * interval cancel_on_exit_cfg (ldur l)) <= ldur l * sec.
+Proof.
+  assert (4 <= c_ren cancel_on_exit_cfg) as R by (vm_compute; discriminate).
+  exact (fun np acts s i l => step_down_bound_coe_proved cancel_on_exit_cfg R np acts s i l eq_refl).
+Qed.
+Example leak_run_repaired :
+  exists s, run cancel_on_exit_cfg (init 1) leak_run = Some s /\ map llive (lis s) = [false; false] /\ now s = 11000000000.
+Proof. eexists. split; [vm_compute; reflexivity|]. vm_compute. auto. Qed.
+Theorem step_down_bound :
+  c_coe go_cfg = true ->
+  forall np acts s i l, well_formed acts ->
+  run go_cfg (init np) acts = Some s -> nth_error (lis s) i = Some l -> llive l = true ->
+  now s <= llast l + 2 * interval go_cfg (ldur l) /\ 2 * (2 * interval go_cfg (ldur l)) <= ldur l * sec.
+Proof.
+  intros Ce np acts s i l. exact (step_down_bound_coe_proved go_cfg renewals_at_least_4 np acts s i l Ce).
+Qed.
 
 (* non-vacuity: a leader that renews, hits an error, retries successfully, while a second
    participant is refused *)
@@ -218,6 +244,8 @@ Proof. eexists. eexists. split; [vm_compute; reflexivity|]. vm_compute. auto 8. 
 
 Print Assumptions step_down_bound_refuted.
 Print Assumptions step_down_bound_partial.
+Print Assumptions step_down_bound_cancel_on_exit.
+Print Assumptions step_down_bound.
 Print Assumptions mutex_refuted_delete_first.
 Print Assumptions mutex_partial.
 Print Assumptions mutex_cancel_first.
